@@ -385,6 +385,8 @@ func startSX(oneCPU bool, stdin []byte, args ...string) (*sxProc, error) {
 type sxOpt struct {
 	nofile     int
 	slowStderr time.Duration
+	merge      bool   // stderr goes where stdout goes (`2>&1`): one pipe, one reader
+	stdinFile  string // stdin is this regular file (`sx … < file`)
 	stdinHold  bool   // stdin is a pipe that stays open after the given bytes (a producer that has not finished)
 	stdoutPath string // stdout is this file (e.g. /dev/full: every write fails with ENOSPC)
 	race       bool // the race-enabled build (exit status 66 and a report on stderr at the first data race)
@@ -447,6 +449,9 @@ func startSXOpt(o sxOpt, oneCPU bool, stdin []byte, args ...string) (*sxProc, er
 	if o.slowStderr > 0 {
 		p.cmd.Stderr = &slowWriter{w: &p.se, pause: o.slowStderr, n: 12}
 	}
+	if o.merge {
+		p.cmd.Stderr = p.cmd.Stdout
+	}
 	if o.stdoutPath != "" {
 		if f, err := os.OpenFile(o.stdoutPath, os.O_WRONLY, 0); err == nil {
 			p.cmd.Stdout = f
@@ -454,7 +459,12 @@ func startSXOpt(o sxOpt, oneCPU bool, stdin []byte, args ...string) (*sxProc, er
 		}
 	}
 	p.cmd.Env = append(append(os.Environ(), hostileEnv()...), "GORACE=halt_on_error=1 exitcode=66")
-	if stdin != nil && o.stdinHold {
+	if o.stdinFile != "" {
+		if f, err := os.Open(o.stdinFile); err == nil {
+			p.cmd.Stdin = f
+			defer f.Close()
+		}
+	} else if stdin != nil && o.stdinHold {
 		if pr, pw, err := os.Pipe(); err == nil {
 			p.cmd.Stdin = pr
 			go func() {
